@@ -752,6 +752,21 @@ def rule_cache_clock(ctx) -> None:
                               f"`{src(x)[:60]}` builds a TTL cache without time_fn, so it expires entries by time.time: whether a repeated turn is a hit depends on wall-clock speed "
                               "(a host that replays slower than the TTL misses), and hit / miss is written to the canonical t1 / t2 / turn records")
     ctx.floor("C01.CLOCK", "TTL cache constructions on the canonical path", n_sites, 3)
+    # those caches expire by the wall clock (known findings above), so whether a repeated query is a hit or a fresh computation
+    # depends on replay speed.  That is result-neutral only while a hit equals the fresh result, i.e. while the version in the
+    # key follows the content: an index write that skips the version increment makes utterances and t2.jsonl depend on
+    # whether the TTL has run out.
+    from .c05 import index_version_gaps
+    n_w = 0
+    for kind, fn, at, p in index_version_gaps(ctx):
+        if kind != "write":
+            continue
+        n_w += 1
+        ctx.check(p is None, "C01.CLOCK", ctx.okey(f"{fn.qual}/ttl-expiry-result-neutral"), fn.loc(at), "the write is followed by a version increment on every path: a TTL expiry changes hit / miss only",
+                  f"`{src(at)[:50]}` changes the episodes without a version increment on some path, while the T2 caches keyed by that version expire by wall clock: after the write a "
+                  "repeated query returns the stale cached result or the fresh one depending on whether the TTL ran out - the same inputs give different utterances and t2.jsonl at different replay speeds",
+                  ctx.path_witness(fn, p) if p else None)
+    ctx.floor("C01.CLOCK", "episode-container writes checked for a version increment", n_w, 2)
 
 
 def rule_process_state(ctx) -> None:
